@@ -868,7 +868,10 @@ func checkReader(w *sys.World, sc *Scenario, h *sys.Handler, rs *readerState, wr
 		// network loses nothing: a format of which plenty was written while the reader played cannot
 		// arrive empty ("was written ... to that same media and format" has a converse as soon as
 		// nothing is lost: the packets must go to the media and format they were written to).
-		if sc.Net.UDPDrop == 0 && sc.Net.UDPBurst == 0 && sc.Source == "stream" && !sc.Secure && !rs.switched && rs.diedG == 0 && !h.HadWriteError(nil) {
+		// (Not when the scheduler holds goroutines at yield points: a writer goroutine that is held
+		// for tens of milliseconds per packet legitimately delivers only the first few packets of
+		// the queue before a short-lived reader leaves.)
+		if sc.Net.UDPDrop == 0 && sc.Net.UDPBurst == 0 && sc.Source == "stream" && !sc.Secure && !rs.switched && rs.diedG == 0 && !h.HadWriteError(nil) && len(sc.Yields) == 0 {
 			rs.mu.Lock()
 			defer rs.mu.Unlock()
 			for k, list := range fwd {
